@@ -25,7 +25,8 @@ void harness(void){
   NewMatrix(&y,HP_N,HP_NY); for(size_t i=0;i<HP_N;i++)for(size_t j=0;j<HP_NY;j++) y->data[i][j]=in_double(-1e3,1e3);
 #else
   initMatrix(&y);
-#endif for(size_t i=0;i<HP_N;i++)for(size_t k=0;k<HP_NLV;k++) t->data[i][k]=in_double(-1e3,1e3);
+#endif
+  for(size_t i=0;i<HP_N;i++)for(size_t k=0;k<HP_NLV;k++) t->data[i][k]=in_double(-1e3,1e3);
   PLSYPredictor(t,m,HP_A,y);
   CHECK(y->row==HP_N && y->col==HP_NY, "prediction is objects x responses");
   size_t a = HP_A>HP_NLV ? HP_NLV : HP_A;
@@ -46,7 +47,8 @@ void harness(void){
   { size_t aa = HP_A>HP_NLV ? HP_NLV : HP_A; NewMatrix(&ts,HP_N,aa); for(size_t i=0;i<HP_N;i++)for(size_t k=0;k<aa;k++) ts->data[i][k]=in_double(-1e3,1e3); }
 #else
   initMatrix(&ts);
-#endif double E[HP_N][HP_M];
+#endif
+  double E[HP_N][HP_M];
   for(size_t i=0;i<HP_N;i++)for(size_t j=0;j<HP_M;j++){ x->data[i][j]=in_double(-1e3,1e3); E[i][j]=(x->data[i][j]-mean[j])/scal[j]; }
   PLSScorePredictor(x,m,HP_A,ts);
   size_t a = HP_A>HP_NLV ? HP_NLV : HP_A;
